@@ -14,7 +14,7 @@ STORY_IDS = ['A', 'B', 'C', 'D', 'E', 'F', 'G', 'H']
 ITEM_IDS = ['i1', 'i2', 'i3', 'i4', 'i5', 'i6']
 UNKNOWN = 'ZZ'
 
-RO_LAYOUTS = ['plain', 'between', 'trailing', 'nometa', 'bare', 'blankids', 'noids', 'decoys', 'dupstories']
+RO_LAYOUTS = ['plain', 'between', 'trailing', 'nometa', 'bare', 'blankids', 'noids', 'decoys', 'dupstories', 'noslug']
 PARA_LAYOUTS = ['none', 'between', 'leading', 'trailing', 'idlast']
 TIMINGS = ['all', 'none', 'mixed']
 
@@ -49,6 +49,8 @@ def make_ro(story_ids, layout='plain', items=None, para_layout='none', timing='n
     kids = []
     if layout == 'bare':
         pass            # nothing before the first story: roID and roSlug come after the stories
+    elif layout == 'noslug':
+        kids.append(E('roID', text=ro_id))
     elif layout != 'nometa':
         kids += ro_head(ro_id)
     else:
@@ -68,6 +70,9 @@ def make_ro(story_ids, layout='plain', items=None, para_layout='none', timing='n
                 st_.remove(c)
             for c in head:
                 st_.append(c)
+        if layout == 'noslug':
+            for c in [c for c in st_ if c.tag == 'storySlug']:
+                st_.remove(c)                      # the optional slugs left out (the running order's own too)
         kids.append(st_)
         if layout in ('blankids', 'noids') and k == 0:
             # placeholder stories: a blank <storyID/> (holding an item with a blank <itemID/>) and, in
@@ -276,6 +281,26 @@ def merge_cases_item(n_max=4, max_src=2, para_layouts=PARA_LAYOUTS):
         yield {'ro': ro, 'msg': to_text(doc), 'meta': dict(meta, cls=cls, n=2, para='dupstories')}
 
 
+def merge_cases_optional_missing():
+    """the story- and item-level message spaces over a running order without any of the optional fields (no roSlug, no
+    storySlug, no itemSlug, no metadata), and replaces whose carried stories bear the IDs of other stories"""
+    from xml.etree import ElementTree as ET
+    root = make_ro(['A', 'B', 'C'], layout='noslug', timing='none')
+    for e in list(root.iter()):
+        for c in [c for c in e if c.tag in ('itemSlug', 'mosExternalMetadata')]:
+            e.remove(c)
+    ro = to_text(root)
+    for cls, doc, meta in story_level_messages(['A', 'B'], max_src=2, full_refs=False):
+        yield {'ro': ro, 'msg': to_text(doc), 'meta': dict(meta, cls=cls, n=3, layout='optional-missing')}
+    for cls, doc, meta in item_level_messages(['B'], ITEM_IDS[:2], max_src=2):
+        yield {'ro': ro, 'msg': to_text(doc), 'meta': dict(meta, cls=cls, n=3, para='optional-missing')}
+    full = to_text(make_ro(['A', 'B', 'C'], layout='plain'))
+    for new in ([new_story('C')], [new_story('A'), new_story('C')], [new_story('C'), new_story('N1')], [new_story('B')]):
+        yield {'ro': full, 'msg': to_text(story_replace(5, 'B', new)), 'meta': {'cls': 'StoryReplace', 'n': 3, 'layout': 'replace-by-existing-ids'}}
+        yield {'ro': full, 'msg': to_text(element_action(5, 'REPLACE', [ref('storyID', 'B')], [new])),
+               'meta': {'cls': 'EAStoryReplace', 'n': 3, 'layout': 'replace-by-existing-ids'}}
+
+
 def merge_cases_placeholder(max_src=2):
     """item-level messages whose story reference is blank or missing, against a running order that holds
     placeholder stories (blank / missing storyID) with items i1 and a blank-ID item: nothing may be selected"""
@@ -351,6 +376,7 @@ def merge_cases_padded():
     for cls, doc, meta in item_level_messages([sids[1], 'B'], PADDED_ITEM_IDS, max_src=2):
         yield {'ro': ro, 'msg': to_text(doc), 'meta': dict(meta, cls=cls, n=2, para='padded-ids')}
     yield from merge_cases_lookalike_ids()
+    yield from merge_cases_optional_missing()
 
 
 # IDs that are different strings but equal under some normalisation a careless comparison might apply: Unicode
